@@ -24,7 +24,7 @@ func isStoreMutatorCall(cs CallSite) bool {
 
 // C20 — concurrency (the repository's share).
 func checkC20(p *Prog, r *Report) {
-	r.Explain = "Decided statically: D1 key store — no function that holds the store's mutex (read or write) calls, directly or through module callees, a function that acquires it (sync.RWMutex read locks are not re-entrant: a writer queued between two RLocks deadlocks); every Lock/RLock has a deferred unlock; every function that touches files under the store's directory either holds the mutex or is called only from functions that hold it; D2 queries are readers — no function reachable over definite edges from the 12 query handlers (module code, x/nft keeper, types/query, store/prefix) calls a store mutator, and each handler derives its sdk.Context from its own context parameter; D3 no shared mutable state — over the code reachable from consensus, query, validation, sign-bytes and key-store entry points, every write to a package-level variable or to a field of a long-lived module struct (outside init) happens under an exclusive mutex, an atomic or a sync.Map, and a location written by block processing or a query is never read by a query (query answers derive from the committed store only); every append whose first operand is a package-level slice requires that slice to be a never-reassigned composite literal (cap == len, so append must copy)."
+	r.Explain = "Decided statically: D1 key store — no function that holds the store's mutex (read or write) calls, directly or through module callees, a function that acquires it (sync.RWMutex read locks are not re-entrant: a writer queued between two RLocks deadlocks); every Lock/RLock has a deferred unlock; every function that touches files under the store's directory either holds the mutex or is called only from functions that hold it; D2 queries are readers — no function reachable over definite edges from the 12 query handlers (module code, x/nft keeper, types/query, store/prefix) calls a store mutator, and each handler derives its sdk.Context from its own context parameter; D3 no shared mutable state — over the code reachable from consensus, query, validation, sign-bytes and key-store entry points, every write to a package-level variable or to a field of a long-lived module struct (outside init) happens under an exclusive mutex, an atomic or a sync.Map, and a location written by block processing or a query is never read by a query (query answers derive from the committed store only); every append whose first operand is a package-level slice requires that slice to be a never-reassigned composite literal (cap == len, so append must copy). D1b lock order: over all hand-written module code, mutexes and channel semaphores (send = acquire, receive = release; wrapper functions summarised) are acquired in one global order — no cycle in the held→acquired graph (fixture control); D1c no function returns a value aliasing an object it also puts back into a sync.Pool (fixture control)."
 	r.NotDec = []string{"snapshot isolation of baseapp's query multistore", "data races inside the SDK/amino caches", "any actual schedule (no race detector, no interleaving exploration)"}
 	r.Trusted = []string{"cosmos-sdk baseapp query contexts (height-bound cache multistore)", "sync primitives"}
 	kp := func(rule, rest string) string { return rule + ":C20:" + rest }
@@ -243,6 +243,26 @@ func checkC20(p *Prog, r *Report) {
 		}
 		r.Check(okCtx, kp("ORIGIN", qn+"#ctx-from-own-parameter"), "each query derives its sdk.Context from its own context parameter (never from a field or global)", p.FnPos(q),
 			fmt.Sprintf("%d UnwrapSDKContext call(s) on the handler's parameter", n), "the sdk.Context is taken from somewhere other than the request context")
+	}
+
+	if r.Tier == "thorough" {
+		// cross-check of D2 with the whole-program VTA call graph (over-approximated dispatch; notes only, plus a sanity check of
+		// the checker's own callee resolution)
+		all := p.ReachFrom(queries, follow)
+		vtaCrossCheck(p, r, kp("REACH", "queries#vta-cross-check"), queries, func(f *ssa.Function) (string, bool) {
+			if a := aol.acc[f]; a != nil && (a.Op == "Set" || a.Op == "Delete") {
+				return "AOL mutator " + FuncName(f), true
+			}
+			if did.setters[f] {
+				return "DID setter " + FuncName(f), true
+			}
+			if n, ok := isNftKeeperMethod(f); ok {
+				if _, m := nftMutators[n]; m {
+					return "x/nft mutator " + n, true
+				}
+			}
+			return "", false
+		}, all, follow)
 	}
 
 	// ---------------- D3: shared mutable state ----------------
